@@ -53,6 +53,8 @@ class FnContract:
     yields: Optional[Callable] = None      # yields(ctx) -> Bool over ctx.yielded
     exc_any_ok: bool = False               # `raises` lists are not exhaustive (used for assumed externals)
     may_raise_any: bool = False            # assumed external: may raise any Exception (EXC-ANY) besides `raises`
+    frame: Optional[Callable] = None       # frame(ex, st, amap): field-granular havoc at call sites instead of the
+                                           # default whole-object havoc of `modifies` (pack C18: cached token / site id)
 
 
 class Registry:
